@@ -121,7 +121,7 @@ def gen_item(rng, depth, maxdepth, P):
         for _ in range(rng.choice([1, 2])):
             b.insert(rng.randrange(len(b) + 1), rng.choice([("save",), ("save",), ("zero",), ("readU", 1)]))
     # known deviation (1): a range directly inside the LAST alternative.  Mostly avoided (hyp=0 there).
-    if len(bodies) > 1 and open_range(bodies[-1]) and rng.random() < 0.8:
+    if len(bodies) > 1 and open_range(bodies[-1]) and rng.random() < P.get("avoid1", 0.8):
         ok = [i for i, b in enumerate(bodies) if not open_range(b)]
         if ok:
             i = rng.choice(ok)
@@ -157,11 +157,14 @@ def gen_seq(rng, depth, maxdepth, P):
     return out
 
 
-def gen_tree(rng, big=False, maxdepth=None):
+def gen_tree(rng, big=False, maxdepth=None, avoid=True):
+    """`avoid`: mostly stay inside the fragment of Thm/C11.lean (no `[a-b]` open in a last alternative that is
+    followed by more pattern, no trailing `[a-b]`); `avoid=False`: no such care (judged against `impl=`)"""
     maxdepth = rng.choice([0, 1, 1, 2, 2, 3, 3, 4, 4]) if maxdepth is None else maxdepth
     alpha = rng.sample(range(256), rng.choice([3, 4, 6])) if rng.random() < 0.45 else None
     P0 = {"budget": rng.choice([6, 10, 14, 20, 28, 36]), "alpha": alpha,
-         "bigs": (1 if rng.random() < 0.25 else 0), "bigr": (1 if big and rng.random() < 0.5 else 0)}
+         "bigs": (1 if rng.random() < 0.25 else 0), "bigr": (1 if big and rng.random() < 0.5 else 0),
+         "avoid1": 0.8 if avoid else 0.0}
     want = min(maxdepth, rng.choice([0, 1, 1, 2, 2, 3]))
     for _ in range(8):
         P = dict(P0)
@@ -169,7 +172,7 @@ def gen_tree(rng, big=False, maxdepth=None):
         if depth_of(t) >= want:
             break
     # known deviation (2): a `[a-b]` the parser trims from the end of the pattern.  Mostly avoided.
-    if trailing_range(t) and rng.random() < 0.85:
+    if avoid and trailing_range(t) and rng.random() < 0.85:
         t.append(rng.choice([("byte", rng.choice(alpha) if alpha else rng.getrandbits(8)), ("save",), ("readU", 1)]))
     return t, alpha
 
@@ -981,7 +984,187 @@ def gen_deviation_witnesses(rng, tier):
     return [[img] + ops for (_, _, img, ops) in deviation_cases(rng)]
 
 
+# ================================================================================================
+# OUTSIDE the fragment of Thm/C11.lean: well-formed patterns judged against the second reference semantics
+# (`## impl=`, Thm/C11Impl.lean: unconditional)
+
+def _alts_in(items, acc):
+    for it in items:
+        if it[0] == "group":
+            _alts_in(it[2], acc)
+        elif it[0] == "alt":
+            acc.append((items, it))
+            for b in it[1]:
+                _alts_in(b, acc)
+    return acc
+
+
+def push_outside(rng, tree, alpha):
+    """make the tree leave the fragment: a `[a-b]` into the last alternative of some `( | )` that is followed by
+    more pattern, and / or a trailing `[a-b]` (possibly behind `?` / `[n]`, inside a trailing brace body / last
+    alternative)"""
+    rb = lambda: rng.choice(alpha) if alpha else rng.getrandbits(8)
+    rr = lambda: (lambda a: ("range", a, a + rng.choice([1, 2, 3, 4, 8])))(rng.choice([0, 0, 0, 1, 2]))
+    alts = _alts_in(tree, [])
+    if alts and rng.random() < 0.75:
+        seq, alt = rng.choice(alts)
+        last = alt[1][-1]
+        last.insert(rng.randrange(len(last) + 1), rr())
+        if rng.random() < 0.7:
+            last.append(("byte", rb()))
+        i = [j for j, x in enumerate(seq) if x is alt][0]
+        if i + 1 >= len(seq) or rng.random() < 0.3:
+            seq.insert(i + 1, rng.choice([("byte", rb()), ("byte", rb()), ("save",), ("readU", 1)]))
+    if not alts or rng.random() < 0.4:
+        # a trailing range: at the end of the innermost sequence that ends the pattern
+        seq = tree
+        while seq and seq[-1][0] in ("group", "alt") and rng.random() < 0.7:
+            it = seq[-1]
+            if it[0] == "group":
+                seq = it[2]
+            elif it[1]:
+                seq = it[1][-1]
+            else:
+                break
+        seq.append(rr())
+        for _ in range(rng.choice([0, 0, 1, 2])):
+            seq.append(rng.choice([("any",), ("skip", rng.choice([0, 1, 3])), ("str", b""), rr()]))
+    return tree
+
+
+def gen_sem_outside_random(rng, tier):
+    """random trees pushed out of the fragment: layouts, perturbations, edges (file + view)"""
+    cases = []
+    n = 60 if tier == "quick" else 3000
+    made = guard = 0
+    while made < n and guard < 20 * n:
+        guard += 1
+        tree, alpha = gen_tree(rng, big=False, avoid=False)
+        tree = push_outside(rng, tree, alpha)
+        cs = image_tree_cases(rng, tree, alpha, rng.choice([32, 64]), rng.choice([2, 3, 4]), edge=rng.random() < 0.6)
+        if cs:
+            made += 1
+            cases += cs
+    return cases
+
+
+def _hexs(bs, up):
+    return " ".join(("%02X" if up else "%02x") % b for b in bs)
+
+
+def retry_cases(rng, bits):
+    """`pre ( A | [a-b] X ) Y` and relatives on data with a DECOY: at an earlier candidate the rest of the last
+    alternative matches but what follows the `)` does not.  The implementation (and `denoteImpl`) retries, the
+    committed-choice reading (`denote`) does not.  -> cases"""
+    kf, kv = "f%d" % bits, "v%d" % bits
+    up = rng.random() < 0.5
+    a = rng.choice([0, 0, 1, 2])
+    width = rng.choice([2, 3, 4, 6, 8])
+    b = a + width
+    pool = rng.sample(range(1, 256), 16)
+    pre, A, Bb = [pool[0], pool[1]][:rng.choice([1, 2])], [pool[2]], [pool[3]]
+    X = pool[4:4 + rng.choice([1, 2])]
+    Y = pool[6:6 + rng.choice([1, 2])]
+    Z = pool[8:8 + rng.choice([1, 2])]
+    form = rng.choice(["flat", "flat", "nested", "group", "first", "three"])
+    sv = rng.random() < 0.6
+    q = "'" if sv else ""
+    hs = lambda bs: _hexs(bs, up)
+    if form == "flat":
+        pat, R, ns = "%s ( %s | [%d-%d] %s %s) %s %s" % (hs(pre), hs(A), a, b, hs(X), q, hs(Y), q), X + Y, 1 + 2 * sv
+    elif form == "three":
+        pat, R, ns = "%s ( %s | %s | [%d-%d] %s %s) %s %s" % (hs(pre), hs(A), hs(Bb), a, b, hs(X), q, hs(Y), q), X + Y, 1 + 2 * sv
+    elif form == "nested":
+        pat, R, ns = "%s ( %s | ( %s | [%d-%d] %s %s) %s ) %s %s" % (hs(pre), hs(A), hs(Bb), a, b, hs(X), q, hs(Y), hs(Z), q), X + Y + Z, 1 + 2 * sv
+    elif form == "first":     # the contrast: the range in a NON-last alternative is a committed choice in both readings
+        pat, R, ns = "%s ( [%d-%d] %s %s| %s ) %s %s" % (hs(pre), a, b, hs(X), q, hs(A), hs(Y), q), X + Y, 1 + 2 * sv
+    else:                     # inside a brace body: the retry stops at the `}`
+        pat, R, ns = "%s $ { %s ( %s | [%d-%d] %s %s) %s } u1 %s" % (hs([0xE8]), hs(pre), hs(A), a, b, hs(X), q, hs(Y), hs(Z)), X + Y, 2 + sv
+    fill = [x for x in pool[10:] if x != R[0]]
+    s2 = rng.randrange(0, width + (1 if rng.random() < 0.15 else 0))       # sometimes one beyond the bound: no match
+    mode = rng.choice(["decoy", "decoy", "decoy", "plain", "early"])
+    n = a + width + len(R) + 8
+    win = [rng.choice(fill) for _ in range(n)]
+    win[a + s2:a + s2 + len(R)] = R
+    if mode != "plain" and s2 >= 1:
+        s1 = rng.randrange(0, s2)
+        # the decoy agrees with the rest on `d` bytes: d >= len(X) passes the alternative and fails behind the `)`
+        d = rng.randrange(len(X), len(R)) if mode == "decoy" else rng.randrange(0, len(X))
+        for i in range(d):
+            if a + s1 + i < a + s2:
+                win[a + s1 + i] = R[i]
+    body = pre + win
+    head = [rng.getrandbits(8) for _ in range(rng.choice([1, 4, 9]))]
+    if form == "group":
+        # e8 rel32 <u1> <Z...> ... body
+        gapn = rng.choice([3, 8])
+        data = head + [0xE8] + list(struct.pack("<I", 1 + len(Z) + gapn)) + [rng.getrandbits(8)] + Z + \
+            [rng.getrandbits(8) for _ in range(gapn)] + body
+    else:
+        data = head + body
+    data = bytes(data + [rng.getrandbits(8) for _ in range(rng.choice([0, 0, 5]))])
+    pe = new_pe(rng, bits)
+    base = pe.sections[-1].va
+    cur = base + len(head)
+    fl, vl = image_pair(rng, pe, data, rng.choice([0, 0, 1, 0x40]))
+    ph = _plain(pat)
+    ops = lambda k: [sem_op(k, ph, cur, ns), sem_op(k, ph, cur, rng.choice([0, 1, ns + 2])), sem_op(k, ph, cur + 1, ns)]
+    return [[fl] + ops(kf), [vl] + ops(kv)]
+
+
+def trailing_cases(rng, bits):
+    """a trailing `[a-b]` (plain, behind `?` / `[n]` / `""`, inside a trailing brace body or last alternative) with the
+    literal part at the very END of the section / mapped image and in the middle; contrasts: `[a-b] '`, the range in a
+    non-last alternative -> cases"""
+    kf, kv = "f%d" % bits, "v%d" % bits
+    up = rng.random() < 0.5
+    hs = lambda bs: _hexs(bs, up)
+    pool = rng.sample(range(1, 256), 8)
+    Pb = pool[:rng.choice([1, 2, 3])]
+    a = rng.choice([0, 0, 1, 2, 5])
+    b = a + rng.choice([1, 2, 5, 16])
+    tail = rng.choice(["", "", " ?", " [2]", ' ""', " ? [%d-%d]" % (a, b + 1), " [0]"])
+    rngs = "[%d-%d]%s" % (a, b, tail)
+    form = rng.choice(["plain", "plain", "save", "lastalt", "firstalt", "group", "altgroup"])
+    pre, ns = [], 1
+    if form == "plain":
+        pat = "%s %s" % (hs(Pb), rngs)
+    elif form == "save":
+        pat, ns = "%s ' %s '" % (hs(Pb), rngs), 3                       # not trailing: a bookmark follows
+    elif form == "lastalt":
+        pat = "( %s | %s %s )%s" % (hs([pool[5]]), hs(Pb), rngs, rng.choice(["", " ?"]))
+    elif form == "firstalt":
+        pat = "( %s %s | %s )" % (hs(Pb), rngs, hs([pool[5]]))          # not trimmed: `Break` follows
+    elif form == "group":
+        pat, pre = "%s %% { %s %s }" % (hs([pool[6]]), hs(Pb), rngs), [pool[6], 0]
+    else:
+        pat, pre = "%s %% { ' ( %s | %s %s ) }" % (hs([pool[6]]), hs([pool[5]]), hs(Pb), rngs), [pool[6], 0]
+        ns = 2
+    head = [rng.getrandbits(8) for _ in range(rng.choice([2, 7]))]
+    slack = rng.choice([0, 0, 0, 1, a, a + 1, b + 2])                   # bytes behind the literal part
+    data = bytes(head + pre + Pb + [rng.getrandbits(8) for _ in range(slack)])
+    pe = new_pe(rng, bits)
+    base = pe.sections[-1].va
+    cur = base + len(head)
+    fl, vl = image_pair(rng, pe, data, rng.choice([0, 0, 0, 3]), tight_view=True)
+    ph = _plain(pat)
+    ops = lambda k: [sem_op(k, ph, cur, ns), sem_op(k, ph, cur, ns + 1), sem_op(k, ph, cur - 1, ns)]
+    return [[fl] + ops(kf), [vl] + ops(kv)]
+
+
+def gen_sem_outside_built(rng, tier):
+    """constructions on which the two readings of the documentation differ (and their contrasts)"""
+    cases = []
+    n = 40 if tier == "quick" else 2000
+    for i in range(n):
+        cases += retry_cases(rng, 32 if i % 2 else 64)
+        cases += trailing_cases(rng, 64 if i % 2 else 32)
+    return cases
+
+
 SEM_GENS = [gen_sem_special, gen_sem_random, gen_ref, gen_deviation_witnesses]
+# outside the fragment (kept apart and run LAST so that the random streams of the older generators stay what they were)
+OUTSIDE_GENS = [gen_sem_outside_random, gen_sem_outside_built]
 
 
 # ================================================================================================
@@ -997,7 +1180,7 @@ def _main():
     work = os.path.join(build.ROOT, ".work", "c11")
     os.makedirs(work, exist_ok=True)
     allops = set()
-    for g in SEM_GENS:
+    for g in SEM_GENS + OUTSIDE_GENS:
         t0 = time.time()
         cases = g(rng, tier)
         tg = time.time() - t0
@@ -1008,6 +1191,7 @@ def _main():
         ia = run.run_cases([impl_bin], cases, op_timeout=10, jobs=12)
         ti = time.time() - t0
         nops = ok1 = ok0 = hyp = other = diff = specbad = hyp_ok1 = 0
+        out_frag = out_ok1 = readings_differ = implbad = 0
         seen, seen_tree = set(), set()
         maxd = 0
         for c, m, im in zip(cases, ma, ia):
@@ -1033,12 +1217,24 @@ def _main():
                     want = spec.split("spec=")[1].split(" ")[0]
                     if want[0] != ans[3:4]:
                         specbad += 1
+                if " hypi=1" in spec:
+                    wanti = spec.split("impl=")[1].split(" ")[0]
+                    if wanti[0] != ans[3:4]:
+                        implbad += 1
+                    if " frag=0" in spec:
+                        out_frag += 1
+                        if ans.startswith("ok 1"):
+                            out_ok1 += 1
+                        if wanti != spec.split("spec=")[1].split(" ")[0]:
+                            readings_differ += 1
                 if op.startswith("pat_sem") and (b or "none") != ans:
                     diff += 1
         allops |= seen
         print("%-24s cases=%d ops=%d  model: ok1=%.1f%% ok0=%.1f%% other=%.1f%%  hyp=1: %.1f%% (ok1 among them %.1f%%)  impl!=model: %d  model!=spec under hyp: %d  [gen %.1fs model %.1fs impl %.1fs]"
               % (g.__name__, len(cases), nops, 100.0 * ok1 / max(nops, 1), 100.0 * ok0 / max(nops, 1), 100.0 * other / max(nops, 1),
                  100.0 * hyp / max(nops, 1), 100.0 * hyp_ok1 / max(hyp, 1), diff, specbad, tg, tm, ti))
+        print("   outside the fragment (hypi=1 frag=0): %d ops, %d matching, the two readings differ on %d; model!=impl-semantics under hypi: %d"
+              % (out_frag, out_ok1, readings_differ, implbad))
         print("   operators in matching cases: %s" % " ".join(sorted(seen)))
         missing = sorted(seen_tree - seen)
         if missing:
